@@ -39,6 +39,7 @@ CONSTANTS Names,        \* file names
                         \* one (stateFailed > stateReceived) and deletes the partial of its retransmission
           KF_S19,       \* finding S19: a companion survives the creation of a fresh .part while its
                         \* file is received / validated (it then describes a body that is elsewhere)
+          ExpireAnytime, \* TRUE: the cache may age out at any quiet moment (scenario generation)
           Hostile       \* TRUE: any request at any time; FALSE: requests a sender following the
                         \* protocol can have in flight together (same version, disjoint ranges)
 
@@ -423,7 +424,9 @@ CleanLoop(n) ==
 \* cleanCache with everything old: delivered entries leave the memory
 ExpireCache ==
   /\ b.expire < MaxExpire
-  /\ Hostile \/ b.req = MaxReq   \* (a sender following the protocol asks before it re-sends a day later)
+  \* (a sender following the protocol asks before it re-sends a day later; in the design runs the day
+  \* passes when the requests are used up, the scenario generator lets it pass at any quiet moment)
+  /\ Hostile \/ ExpireAnytime \/ b.req = MaxReq
   /\ m.thr = {} /\ m.val = NoJob /\ m.fin = NoJob /\ m.vq = {} /\ m.fq = {}   \* a day passes: nothing is in flight
   /\ m' = [m EXCEPT !.cache = [n \in Names |->
                 IF @[n].st \in {"finalized", "logged"} /\ @[n].prev = "" THEN Unknown ELSE @[n]],
